@@ -98,7 +98,7 @@ def q_c03_reconcile_validation(bodies):
                 detail="G1 (validate_entry gates acceptance): %s [%s]; G2 (validate_empty gates acceptance): %s [%s]; paths=%d" % (g1, d1, g2, d2, len(paths)),
                 functions=[body.name, "validate_entry (uninterpreted: decided by the Kani harness validate_entry_accepts)",
                            "validate_empty (uninterpreted: decided by the Kani harness validate_empty_table)"],
-                queries=2, witness="d3",
+                queries=2, cases=len(paths) + 2, witness="d3",
                 check_message="a reconciliation message only delivers entries that pass validate_entry and validate_empty")
 
 
@@ -213,7 +213,7 @@ def q_c10_bob_outcome(bodies):
     return dict(name=name, property="C10", verdict="violated" if violated else "holds",
                 detail="final return reachable with progress=None: %s (blocks=%d, edges=%d, take sites=%d, restore sites=%d); into_outcome unwraps the field: %s"
                 % (reach_none, len(body.blocks), len(edges), sum(1 for e in effect.values() if e == "none"), sum(1 for e in effect.values() if e == "some"), unwraps),
-                functions=[body.name, outb.name], queries=1, witness="d6",
+                functions=[body.name, outb.name], queries=1, cases=sum(1 for e in effect.values() if e) + len(final_blocks), witness="d6",
                 check_message="the accepting side can always report its outcome after run returned")
 
 
@@ -421,7 +421,7 @@ def q_c14_open_close(bodies):
     return dict(name=name, property="C14", verdict=verdict,
                 detail="close paths=%d, open_with paths=%d; problems: %s" % (close_paths, len(paths), problems or "none"),
                 functions=[closes[0].name, opens[0].name, "HashMap::entry / OccupiedEntry::{get_mut,remove_entry} / VacantEntry::insert (modelled)"],
-                queries=nq, witness="c14",
+                queries=nq, cases=close_paths + len(paths), witness="c14",
                 check_message=(problems[0][0] if problems else "open/close counting and sticky sync"))
 
 
@@ -570,7 +570,7 @@ def q_c07_actor_import(bodies):
     return dict(name=name, property="C07", verdict=verdict,
                 detail="paths=%d, merge sites reached=%d; problems: %s" % (len(paths), n_merge, problems or "none"),
                 functions=[body.name, "Store::import_namespace / OpenReplicas::get_mut / ReplicaInfo::merge_capability (uninterpreted)"],
-                queries=nq, witness="c07a",
+                queries=nq, cases=len(paths), witness="c07a",
                 check_message=(problems[0][0] if problems else "actor propagates imported capabilities only through merge"))
 
 
@@ -657,7 +657,7 @@ def q_c12_event_fields(bodies):
     if any(p[1] != "inconclusive" for p in problems):
         verdict = "violated"
     return dict(name=name, property="C12", verdict=verdict, detail="fields=%s; problems: %s" % (sorted(fields), problems or "none"),
-                functions=[body.name, "DownloadPolicy::matches (uninterpreted: decided by the Kani harness policy_matches)"], queries=nq, witness="c12",
+                functions=[body.name, "DownloadPolicy::matches (uninterpreted: decided by the Kani harness policy_matches)"], queries=nq, cases=len(want), witness="c12",
                 check_message=(problems[0][0] if problems else "remote insert event fields"))
 
 
@@ -765,7 +765,7 @@ def q_c16_remove_tables(bodies):
     if any(p[1] not in ("inconclusive", "vacuous") for p in problems):
         verdict = "violated"
     return dict(name=name, property="C16", verdict=verdict, detail="tables=%s; success paths=%d of %d; problems: %s" % (fields, ok_paths, len(paths), problems or "none"),
-                functions=[body.name, outer[0].name], queries=max(nq, 1), witness="d7",
+                functions=[body.name, outer[0].name], queries=max(nq, 1), cases=len(fields) - 1, witness="d7",
                 check_message=(problems[0][0] if problems else "remove_replica clears every per-document table"))
 
 
@@ -897,7 +897,7 @@ def q_c13_head_update(bodies):
     if any(p[1] not in ("inconclusive", "vacuous") for p in problems):
         verdict = "violated"
     return dict(name=name, property="C13", verdict=verdict, detail="success paths=%d of %d; problems: %s" % (ok_paths, len(paths), problems or "none"),
-                functions=[body.name, "redb Table::get/insert on latest_per_author (modelled: ghost head row)"], queries=nq, witness="d4",
+                functions=[body.name, "redb Table::get/insert on latest_per_author (modelled: ghost head row)"], queries=nq, cases=len(paths), witness="d4",
                 check_message=(problems[0][0] if problems else "the stored author head only moves forward"))
 
 
